@@ -310,6 +310,14 @@ void ModeArgs(Tape& t, Outcome& o) {
       else m = Manifold::Revolve(ps, t.range(3, 12), t.real(10, 380));
       o.cls("overlapping-contours");
       gJudgeTopology = false;
+      {
+        // Known finding F45: Extrude/Revolve of overlapping contours can return a NoError mesh that is not a
+        // closed 2-manifold (doubled edges, unreferenced or pinched vertices); later operations on it read
+        // uninitialised indices.  Such a result is routed to the finding and not used further; results that
+        // are closed manifolds go on through the follow-up programs.
+        oracle::TopoReport tr22 = oracle::CheckManifold(m);
+        if (!tr22.ok) { o.known("F45-overlapping-contours-nonmanifold", "malformed:overlapping-contours:" + tr22.sig, tr22.msg); return; }
+      }
       if (t.flip()) { d << " .CalculateNormals"; Manifold nm = m.CalculateNormals(0, t.real(0, 90)); (void)nm.NumTri(); (void)nm.GetMeshGL(); }
       break;
     }
@@ -350,6 +358,8 @@ void ModePoints(Tape& t, Outcome& o) {
     d << "Hull(" << n << " pts)";
     Manifold m = Manifold::Hull(pts);
     oracle::TopoReport tr = oracle::CheckManifold(m);
+    // known finding F25: quickhull on collinear / coplanar points can double an edge or repeat a vertex in a triangle
+    if (!tr.ok && (tr.sig == "topo:duplicate-edge" || tr.sig == "topo:degenerate-tri")) { o.known("F25-hull-duplicate-edge", "malformed:topo:duplicate-edge", std::string("Hull(points): ") + tr.msg); return; }
     if (!tr.ok) { o.fail("malformed:" + tr.sig, tr.msg); return; }
     FollowUps(t, o, m, d);
   } else if (k == 1) {
